@@ -120,6 +120,9 @@ pub fn bounds(ctx: &Ctx) {
     let it = ctx.choose("index-type", 3);
     let at = ctx.choose("intensity-type", 6);
     let colt = ctx.choose("colour-type", 6);
+    // green and blue may have a type of their own (default: the same as red)
+    let gt = (colt + ctx.choose("green-type-shift", 6)) % 6;
+    let bt = (colt + ctx.choose("blue-type-shift", 6)) % 6;
     let vs = ctx.choose("value-set", 3);
     let ov_i = ctx.choose("intensity-override", 5);
     let ov_c = ctx.choose("colour-override", 5);
@@ -144,9 +147,9 @@ pub fn bounds(ctx: &Ctx) {
         proto.push(rec("returnIndex", idx_type(it)));
     }
     if groups & 4 != 0 {
-        for n in ["colorRed", "colorGreen", "colorBlue"] {
-            proto.push(rec(n, attr_type(colt)));
-        }
+        proto.push(rec("colorRed", attr_type(colt)));
+        proto.push(rec("colorGreen", attr_type(gt)));
+        proto.push(rec("colorBlue", attr_type(bt)));
     }
     if groups & 8 != 0 {
         proto.push(rec("intensity", attr_type(at)));
@@ -268,9 +271,12 @@ pub fn bounds(ctx: &Ctx) {
             let (lo, hi) = (Some(override_val(ov_c, false)), Some(override_val(ov_c, true)));
             Some([lo, hi, lo, hi, lo, hi])
         } else {
-            let (lo, hi) = type_limits(ty);
-            if lo.is_some() && hi.is_some() {
-                Some([lo, hi, lo, hi, lo, hi])
+            let tl = |n: &str| type_limits(&proto.iter().find(|r| r.name == n).unwrap().ty);
+            let (r, g, b) = (tl("colorRed"), tl("colorGreen"), tl("colorBlue"));
+            let all = [r.0, r.1, g.0, g.1, b.0, b.1];
+            // limits are only stored when every minimum and maximum is known
+            if all.iter().all(|x| x.is_some()) {
+                Some(all)
             } else {
                 None
             }
